@@ -149,6 +149,13 @@ pub fn run_case(case: &Case) -> (Vec<(String, String)>, Info) {
                 _ => {}
             }
             if o.outcome.accepted() {
+                // two tree positions can hold the very same block (same parent, timestamp, creator and
+                // content): whatever is known about one is known about all of them
+                for (j, other) in built.blocks.iter().enumerate() {
+                    if other.hash == b.hash {
+                        known.insert(j);
+                    }
+                }
                 known.insert(bi);
             }
             let after = block_on(snapshot(&d.node, max_id));
